@@ -612,6 +612,20 @@ pub fn drive_c08(a: &Args) {
             }
         }
     }
+    // look-alikes by truncation: a well-formed escape in which ONE character is replaced by the character with the
+    // same low 8 / low 16 bits (a parser that narrows characters before classifying them takes it for the original)
+    for base in [vec![92u32, 117, 48, 48, 52, 49], vec![92, 117, 123, 52, 49, 125], vec![92, 117, 123, 49, 102, 54, 48, 48, 125],
+                 vec![92, 117, 70, 70, 70, 70], vec![97, 92, 117, 123, 65, 125, 98]] {
+        for pos in 0..base.len() {
+            for off in [0x100u32, 0x400, 0x10000, 0x20000] {
+                let mut t = base.clone();
+                t[pos] += off;
+                if char::from_u32(t[pos]).is_some() {
+                    out.emit(parse_event(&t));
+                }
+            }
+        }
+    }
     // random texts with non-ASCII and non-SMT characters
     let extra = [0x41u32, 0x22, 0xE9, 0x3A3, 0xFFFD, 0x1F600, 0x2FFFF, 0x30000, 0x10FFFF, 0x20, 0x7F];
     for _ in 0..a.sz(600, 10000) {
